@@ -301,7 +301,7 @@ Proof.
       rewrite orb_true_r. reflexivity.
     + cbn [forallb]. rewrite Hat, sub_attrs_reapplied_ok; [|apply filter_idem | apply filter_idem].
       rewrite orb_true_r, Hsn, Hsa. cbn [andb]. rewrite andb_true_r.
-      destruct (String.eqb del n) eqn:Edn; [|reflexivity]. apply String.eqb_eq in Edn. subst del. cbn [negb orb].
+      destruct (String.eqb del n) eqn:Edn; [|reflexivity]. apply String.eqb_eq in Edn. rewrite Edn in Hdel. cbn [negb orb].
       destruct (contains_async_trait (h_attrs h)) eqn:Ec.
       * exfalso. apply ND. exists h, t, a0, n. repeat split; assumption.
       * unfold sub_attrs_reapplied. rewrite (contains_async_false _ Ec). reflexivity.
@@ -323,4 +323,94 @@ Proof.
     destruct (c12_all_analyze _ _ (h_attrs h) _ _ (with_cfg_attrs_fn_ok _ _ _ _ (body_fns bitems) (analyze_all_fn_ok _ _ _ _ _ _ Hz))) as [I1 _].
     rewrite I1. cbn [andb].
     apply sub_attrs_reapplied_ok; [apply gen_trait_def_async_attrs | apply filter_idem].
+Qed.
+
+(** fn / mod / impl inputs: unconditionally *)
+Lemma c12_view_nontrait v attr i items :
+  expand_items v attr i = Ok items -> (forall h t, i <> InTrait h t) -> good (view_C12 (mkCtx v attr i) items).
+Proof.
+  intros H Hn. apply c12_view_partial; [exact H|]. intros (h & t & _ & _ & E & _). exact (Hn h t E).
+Qed.
+
+(** trait inputs: unless the SAME name is given to the delegation-target trait and the selector trait
+    while an [async_trait] attribute is present *)
+Lemma c12_view_trait v attr h t items :
+  expand_items v attr (InTrait h t) = Ok items ->
+  (forall a0 n, parse_trait_attr attr = Ok a0 -> ta_impl_trait a0 = Some n -> ta_delegate a0 = Some (ByTrait n) ->
+                contains_async_trait (h_attrs h) = false) ->
+  good (view_C12 (mkCtx v attr (InTrait h t)) items).
+Proof.
+  intros H Hs. apply c12_view_partial; [exact H|]. intros (h' & t' & a0 & n & E & Ha & Hi & Hd & Hc).
+  injection E as <- <-. rewrite (Hs a0 n Ha Hi Hd) in Hc. discriminate Hc.
+Qed.
+
+(** [view_C12] is false on the degenerate input
+    [#[entrait(FooImpl, delegate_by = FooImpl)] #[async_trait] trait Foo { async fn bar(&self); }]:
+    the selector trait (second generated trait, no attributes) has the name of the delegation-target
+    trait, and the predicate identifies the target trait(s) by name *)
+Definition c12_cex_attr : toks := [TId "FooImpl"; comma; TId "delegate_by"; pc "="; TId "FooImpl"].
+Definition c12_cex_input : input :=
+  InTrait (mkHead [[TId "async_trait"]] [] false false)
+          (mkTrait [] [] false false "Foo" no_generics false pempty
+                   [TFn [] (mkSig false true false None "bar" no_generics
+                                  (mkP [ArgRecv [] (Some None) false None] false) None None) None true]).
+
+Lemma c12_view_counterexample :
+  exists items, expand_items VEntrait c12_cex_attr c12_cex_input = Ok items /\
+                ~ good (view_C12 (mkCtx VEntrait c12_cex_attr c12_cex_input) items).
+Proof.
+  eexists. split; [vm_compute; reflexivity|]. intros G.
+  assert (Happ : v_app (view_C12 (mkCtx VEntrait c12_cex_attr c12_cex_input)
+            match expand_items VEntrait c12_cex_attr c12_cex_input with Ok items => items | _ => [] end) = true)
+    by (vm_compute; reflexivity).
+  destruct (G Happ) as [_ Hh]. vm_compute in Hh. discriminate Hh.
+Qed.
+
+(** ** explicit statements per input kind *)
+Lemma c12_fn_explicit v attr h s body items :
+  expand_items v attr (InFn h s body) = Ok items ->
+  exists a f tr im tf,
+    parse_fn_attr attr = Ok a /\ items = [f; ITrait tr; IImpl im] /\
+    trait_sigs tr = [([], make_trait_fn_sig (tf_sig tf) (h_attrs h) (apply_variant v (fa_opts a)))] /\
+    map (fun '(_, s, _) => s) (impl_fns im) = [tf_sig tf] /\
+    c12_rel (merged_sig h s) (tf_sig tf) /\
+    filter is_async_trait (t_attrs tr) = filter is_async_trait (h_attrs h) /\
+    i_attrs im = filter is_async_trait (h_attrs h).
+Proof.
+  intros H. destruct (expand_fn_inv _ _ _ _ _ _ H) as (a & tf & tg & mode & ib & Ha & Hz & _ & Hib & ->).
+  destruct (gen_impl_block_fns _ _ _ _ _ _ _ _ _ Hib) as (argss & Fa & Hfns & _ & Hattrs & _).
+  exists a. do 3 eexists. exists tf. split; [exact Ha|]. split; [reflexivity|].
+  destruct (analyze_inv _ _ _ _ _ _ Hz) as (deps & s' & _ & _ & Htf).
+  split; [rewrite trait_sigs_gen_trait_def; subst tf; reflexivity|].
+  split. { rewrite Hfns. inversion Fa as [|? args ? ? Hc Fa']; subst. inversion Fa'; subst. reflexivity. }
+  split; [apply (analyze_async_output _ _ _ _ _ _ Hz)|].
+  split; [apply gen_trait_def_async_attrs | exact Hattrs].
+Qed.
+
+Lemma c12_trait_explicit v attr h t items :
+  expand_items v attr (InTrait h t) = Ok items ->
+  exists a0 tr ds im,
+    parse_trait_attr attr = Ok a0 /\ items = [ITrait tr] ++ map ITrait ds ++ [IImpl im] /\
+    trait_sigs tr = map (fun '(x, s) => (x, make_trait_fn_sig s (h_attrs h) (apply_variant v (ta_opts a0)))) (trait_sigs t) /\
+    map (fun '(x, s, _) => (x, s)) (impl_fns im) = trait_sigs t /\
+    filter is_async_trait (t_attrs tr) = filter is_async_trait (h_attrs h) /\
+    i_attrs im = filter is_async_trait (h_attrs h) /\
+    match ta_impl_trait a0 with
+    | None => ds = []
+    | Some n => exists td, hd_error ds = Some td /\ t_name td = n /\ t_attrs td = filter is_async_trait (h_attrs h)
+    end.
+Proof.
+  intros H. destruct (expand_trait_inv _ _ _ _ _ H) as (a0 & fns & deleg & methods & Ha & _ & Hf & Hd & Hm & ->).
+  match goal with |- context [[ITrait ?tr] ++ deleg ++ [IImpl ?im]] =>
+    destruct (parts_trait h t tr deleg im (delegation_trait_defs_shape _ _ _ _ _ _ Hd)) as (ds & _ & Hds) end.
+  destruct (analyze_trait_items_spec _ _ Hf) as [Hsig _].
+  pose proof (delegation_methods_spec _ _ _ _ Hm) as Hms.
+  exists a0. eexists. exists ds. eexists. split; [exact Ha|]. split; [rewrite Hds; reflexivity|].
+  split. { rewrite trait_sigs_gen_trait_def. unfold trait_sigs. rewrite <- Hsig, map_map. reflexivity. }
+  split. { unfold impl_fns, trait_sigs. cbn [i_items]. rewrite Hms. exact Hsig. }
+  split; [apply gen_trait_def_async_attrs|]. split; [reflexivity|].
+  rewrite Hds in Hd. pose proof (delegation_ds _ _ _ _ _ _ Hd) as Hdd.
+  cbn [eff_trait_attr ta_impl_trait ta_delegate] in Hdd.
+  destruct (ta_impl_trait a0) as [n|]; [|exact Hdd].
+  destruct Hdd as (td & Hn & Hat & [->|(del & sel & _ & -> & _)]); exists td; repeat split; assumption.
 Qed.
